@@ -1,8 +1,10 @@
 package main
 
 import (
+	"fmt"
 	"go/ast"
 	"go/token"
+	"go/types"
 	"sort"
 	"strings"
 
@@ -40,6 +42,7 @@ func (e *Engine) structuralChecks(prop string) []*StructObl {
 			out = append(out, sc.run(e)...)
 		}
 	}
+	out = append(out, e.coverChecks(prop)...)
 	return out
 }
 
@@ -129,6 +132,249 @@ func (e *Engine) globalsImmutable() []*StructObl {
 			o.Detail = "no store and no mutating big.Int/uint256 method call on it outside the initialiser (whole-program SSA scan)"
 		}
 		out = append(out, o)
+	}
+	return out
+}
+
+// ---------------------------------------------------------------------------
+// field coverage: every field of struct T (except the declared exclusions) flows into
+// the result of an encoder function (intra-procedural taint over the SSA, with getter
+// summaries computed the same way).
+
+func init() {
+	registerStruct([]string{"ALL"}, func(e *Engine) []*StructObl { return nil })
+}
+
+type fieldSet map[string]bool
+
+func (a fieldSet) union(b fieldSet) bool {
+	ch := false
+	for k := range b {
+		if !a[k] {
+			a[k] = true
+			ch = true
+		}
+	}
+	return ch
+}
+
+func isTypeOrPtr(t types.Type, T types.Type) bool {
+	if types.Identical(t, T) {
+		return true
+	}
+	if p, ok := t.Underlying().(*types.Pointer); ok {
+		return types.Identical(p.Elem(), T)
+	}
+	return false
+}
+
+// fieldFlow: fields of T whose values may flow into the results of fn.
+func (e *Engine) fieldFlow(fn *ssa.Function, T types.Type, depth int, stack map[*ssa.Function]bool) fieldSet {
+	key := fn.String() + "|" + types.TypeString(T, nil)
+	if r, ok := e.flowMemo[key]; ok {
+		return r
+	}
+	out := fieldSet{}
+	if depth > 5 || stack[fn] || len(fn.Blocks) == 0 {
+		return out
+	}
+	stack[fn] = true
+	defer delete(stack, fn)
+	st, ok := T.Underlying().(*types.Struct)
+	if !ok {
+		return out
+	}
+	taint := map[ssa.Value]fieldSet{}
+	get := func(v ssa.Value) fieldSet { return taint[v] }
+	add := func(v ssa.Value, fs fieldSet) bool {
+		if len(fs) == 0 || v == nil {
+			return false
+		}
+		t := taint[v]
+		if t == nil {
+			t = fieldSet{}
+			taint[v] = t
+		}
+		return t.union(fs)
+	}
+	rootObj := func(v ssa.Value) ssa.Value {
+		for i := 0; i < 20; i++ {
+			switch x := v.(type) {
+			case *ssa.FieldAddr:
+				v = x.X
+			case *ssa.IndexAddr:
+				v = x.X
+			case *ssa.ChangeType:
+				v = x.X
+			case *ssa.Slice:
+				v = x.X
+			default:
+				return v
+			}
+		}
+		return v
+	}
+	changed := true
+	for iter := 0; changed && iter < 50; iter++ {
+		changed = false
+		for _, b := range fn.Blocks {
+			for _, in := range b.Instrs {
+				switch x := in.(type) {
+				case *ssa.FieldAddr:
+					if isTypeOrPtr(x.X.Type(), T) {
+						if add(x, fieldSet{st.Field(x.Field).Name(): true}) {
+							changed = true
+						}
+					}
+					if add(x, get(x.X)) {
+						changed = true
+					}
+				case *ssa.Field:
+					if types.Identical(x.X.Type(), T) {
+						if add(x, fieldSet{st.Field(x.Field).Name(): true}) {
+							changed = true
+						}
+					}
+					if add(x, get(x.X)) {
+						changed = true
+					}
+				case *ssa.Store:
+					if fs := get(x.Val); len(fs) > 0 {
+						if add(rootObj(x.Addr), fs) {
+							changed = true
+						}
+						if add(x.Addr, fs) {
+							changed = true
+						}
+					}
+				case *ssa.MapUpdate:
+					fs := fieldSet{}
+					fs.union(get(x.Key))
+					fs.union(get(x.Value))
+					if add(x.Map, fs) {
+						changed = true
+					}
+				case ssa.CallInstruction:
+					com := x.Common()
+					fs := fieldSet{}
+					for _, a := range com.Args {
+						fs.union(get(a))
+					}
+					if com.IsInvoke() {
+						fs.union(get(com.Value))
+					}
+					// getter summaries: callee receives the T object itself
+					if callee, ok := com.Value.(*ssa.Function); ok {
+						for _, a := range com.Args {
+							if isTypeOrPtr(a.Type(), T) {
+								fs.union(e.fieldFlow(callee, T, depth+1, stack))
+							}
+						}
+					}
+					if v, ok := x.(ssa.Value); ok {
+						if add(v, fs) {
+							changed = true
+						}
+					}
+					// destination arguments (copy/append/Write-like): pointer and slice arguments receive the taint
+					if len(fs) > 0 {
+						for i, a := range com.Args {
+							if i == 0 || true {
+								switch a.Type().Underlying().(type) {
+								case *types.Pointer, *types.Slice, *types.Map:
+									if !isTypeOrPtr(a.Type(), T) {
+										if add(rootObj(a), fs) {
+											changed = true
+										}
+									}
+								}
+							}
+						}
+					}
+				case ssa.Value:
+					fs := fieldSet{}
+					var ops []*ssa.Value
+					for _, op := range in.Operands(ops) {
+						if *op != nil {
+							fs.union(get(*op))
+						}
+					}
+					if add(x, fs) {
+						changed = true
+					}
+				}
+			}
+		}
+	}
+	for _, b := range fn.Blocks {
+		for _, in := range b.Instrs {
+			if r, ok := in.(*ssa.Return); ok {
+				for _, v := range r.Results {
+					out.union(get(v))
+					out.union(get(rootObj(v)))
+				}
+			}
+		}
+	}
+	e.flowMemo[key] = out
+	return out
+}
+
+func (e *Engine) coverChecks(prop string) []*StructObl {
+	var out []*StructObl
+	for _, sf := range e.specFiles {
+		for _, cv := range sf.Covers {
+			if !hasProp(cv.Props, prop) {
+				continue
+			}
+			grp := fmt.Sprintf("covers/%s/%s", cv.Func, cv.Type)
+			fn, err := e.resolveFunc(sf.Pkg, cv.Func)
+			sp := e.spkgs[sf.Pkg]
+			var T types.Type
+			if sp != nil {
+				if tn, ok := sp.Pkg.Scope().Lookup(cv.Type).(*types.TypeName); ok {
+					T = tn.Type()
+				}
+			}
+			if err != nil || T == nil {
+				out = append(out, &StructObl{Name: grp, Group: grp, Clause: "covers " + cv.Func, OK: false, Detail: fmt.Sprintf("cannot resolve function or type: %v", err)})
+				continue
+			}
+			st, ok := T.Underlying().(*types.Struct)
+			if !ok {
+				continue
+			}
+			flows := e.fieldFlow(fn, T, 0, map[*ssa.Function]bool{})
+			exc := map[string]bool{}
+			for _, x := range cv.Except {
+				exc[x] = true
+			}
+			for i := 0; i < st.NumFields(); i++ {
+				f := st.Field(i).Name()
+				if exc[f] {
+					continue
+				}
+				o := &StructObl{Name: grp + "/" + f, Group: grp, Clause: fmt.Sprintf("field %s.%s flows into the result of %s", cv.Type, f, cv.Func), OK: flows[f]}
+				if o.OK {
+					o.Detail = "data-flow path from the field to the returned value found in the SSA"
+				} else {
+					o.Detail = fmt.Sprintf("no data flow from %s.%s into the result of %s (field dropped from the encoding?)", cv.Type, f, cv.Func)
+				}
+				out = append(out, o)
+			}
+			// exclusions must name real fields
+			for x := range exc {
+				found := false
+				for i := 0; i < st.NumFields(); i++ {
+					if st.Field(i).Name() == x {
+						found = true
+					}
+				}
+				if !found {
+					out = append(out, &StructObl{Name: grp + "/except-" + x, Group: grp, Clause: "declared exclusion names a field", OK: false, Detail: "no such field " + x})
+				}
+			}
+		}
 	}
 	return out
 }
